@@ -67,6 +67,16 @@ fn rw_comment(rng: &mut Rng, v: &[H]) -> Vec<H> {
     let mut out = Vec::new();
     for h in v {
         match h {
+            H::Text(t) if !t.is_empty() && t.chars().all(char::is_whitespace) && rng.chance(1, 2) => {
+                // white space between sibling elements: the comment goes next to it
+                if rng.chance(1, 2) {
+                    out.push(H::Comment(" c ".into()));
+                    out.push(h.clone());
+                } else {
+                    out.push(h.clone());
+                    out.push(H::Comment(" c ".into()));
+                }
+            }
             H::Text(t) => {
                 let cs: Vec<char> = t.chars().collect();
                 let pos: Vec<usize> = (1..cs.len()).filter(|&i| cs[i - 1].is_whitespace() || cs[i].is_whitespace()).collect();
@@ -147,7 +157,22 @@ fn gen_c13(tier: &str, rng: &mut Rng) -> Vec<Case> {
         };
         let slice = ["ws_subst", "comment", "span_wrap", "indent"][kind];
         let html2 = to_html(&ast2);
-        let cfg = rand_cfg(rng, &[0, 2], false, true);
+        let mut cfg = rand_cfg(rng, &[0, 2], false, true);
+        // a style sheet with positional selectors: comments and white space between siblings are
+        // not elements and must not shift what :nth-child / child combinators select (span wrapping
+        // adds elements, so it is left out here)
+        if kind <= 1 && rng.chance(1, 3) {
+            cfg.user_css.push(
+                rng.pick(&[
+                    "li:nth-child(2) { display: none; } p:nth-child(even) { color: #ff0000; }",
+                    "li:nth-child(odd) { color: #00ff00; } div > p { background-color: #0000ff; }",
+                    ":nth-child(3) { display: none; }",
+                    "p:nth-child(1) { display: none; } dd:nth-child(2n) { color: #123456; }",
+                    "ul > li:nth-child(-n+2) { color: #ff00ff; } blockquote p { display: none; }",
+                ])
+                .to_string(),
+            );
+        }
         let w = if rng.chance(1, 3) { rng.range(1, 12) } else { rng.range(1, 100) };
         let route = if cfg.deco == 2 { 1 } else { 0 };
         for (role, h) in [("base", html), ("variant", html2)] {
@@ -596,13 +621,46 @@ fn gen_c14(tier: &str, rng: &mut Rng) -> Vec<Case> {
     for _ in 0..n {
         let tables = rng.chance(1, 4);
         let o = GenOpts { tables: if tables { 1 } else { 0 }, nested_tables: false, links: true, ids: true, pre: true, dl: true, br: false, imgs: false, sup: false, ..Default::default() };
-        let (html, _) = gen_doc(rng, o);
+        let (html, ast) = gen_doc(rng, o);
         let mut cfg = Cfg { deco: *rng.pick(&[3u8, 3, 2, 1]), ..Default::default() };
         if tables && rng.chance(1, 3) {
             // raw mode: rows are stacked, so the whole output keeps document order
             cfg.raw = 1;
         }
         let w = if rng.chance(1, 3) { rng.range(1, 10) } else { rng.range(1, 100) };
+        // markers never change the text: the same document without ids / names, under the same
+        // options (a maximum wrap width, padding, ... included), renders the same characters
+        if rng.chance(1, 3) {
+            fn strip_ids(v: &[H]) -> Vec<H> {
+                v.iter()
+                    .map(|h| match h {
+                        H::El(n, a, k) => {
+                            let mut at = a.clone();
+                            at.retain(|(key, _)| key != "id" && !(n == "a" && key == "name"));
+                            H::El(n.clone(), at, strip_ids(k))
+                        }
+                        o => o.clone(),
+                    })
+                    .collect()
+            }
+            let mut c2 = cfg.clone();
+            if rng.chance(1, 2) {
+                c2.max_wrap = Some(rng.range(1, 40));
+            }
+            if rng.chance(1, 4) {
+                c2.pad = true;
+            }
+            for (role, h) in [("with_ids", html.clone()), ("without_ids", to_html(&strip_ids(&ast)))] {
+                let id = cases.len();
+                let mut c = mk_case(id, 1, c2.clone(), w, h.into_bytes(), Some(1), g(role), "ids_vs_none");
+                c.group = 6_000_000 + id / 2 * 2 + 1_000_000 * 0;
+                cases.push(c);
+            }
+            let k = cases.len();
+            let gnum = 6_000_000 + k;
+            cases[k - 1].group = gnum;
+            cases[k - 2].group = gnum;
+        }
         let id = cases.len();
         cases.push(mk_case(id, 1, cfg, w, html.into_bytes(), Some(1), g(""), if tables { "tables" } else { "flow" }));
     }
@@ -613,7 +671,20 @@ fn vis_count(n: &DNode) -> usize {
 }
 fn check_c14(cases: &[Case], results: &[Option<RunResult>]) -> Vec<Violation> {
     let mut v = Vec::new();
+    for grp in groups(cases) {
+        if grp.len() == 2 && cases[grp[0]].meta.role() == "with_ids" {
+            if let (Some(ra), Some(rb)) = (&results[grp[0]], &results[grp[1]]) {
+                let (ta, tb) = (out_lines(&ra.outcome), out_lines(&rb.outcome));
+                if ta != tb || ra.outcome.kind() != rb.outcome.kind() {
+                    v.push(viol(grp[0], "ids / names change the rendered text", format!("with ids {:?} without {:?}", ta.map(|l| l.join("|")), tb.map(|l| l.join("|"))), None));
+                }
+            }
+        }
+    }
     for (i, c) in cases.iter().enumerate() {
+        if c.slice == "ids_vs_none" {
+            continue;
+        }
         let r = match &results[i] {
             Some(r) => r,
             None => continue,
@@ -744,7 +815,7 @@ fn gen_c09(tier: &str, rng: &mut Rng) -> Vec<Case> {
     for _ in 0..n {
         let tables = rng.chance(1, 3);
         let css = rng.chance(1, 3);
-        let o = GenOpts { tables: if tables { 1 } else { 0 }, nested_tables: false, links: true, ids: false, pre: true, dl: true, imgs: true, strike: true, sup: false, colours: css, combining: false, wide: false, ..Default::default() };
+        let o = GenOpts { tables: if tables { 1 } else { 0 }, nested_tables: false, links: true, ids: false, pre: true, dl: true, imgs: true, strike: true, sup: rng.chance(1, 2), colours: css, combining: false, wide: false, ..Default::default() };
         let (mut html, _) = gen_doc(rng, o);
         // an annotating element around whole blocks: its annotation must reach the text inside
         // list items, quotes, headings and table cells (they are rendered by nested sub-renderers)
@@ -822,6 +893,13 @@ fn check_c09(cases: &[Case], results: &[Option<RunResult>]) -> Vec<Violation> {
                             }
                         }
                         "pre" => pre = true,
+                        // a superscript that is not plain digits is wrapped in ^{ } under its own annotation
+                        "sup" => {
+                            let t: String = visible_chars(std::slice::from_ref(*a)).into_iter().collect();
+                            if !(t.chars().all(|ch| ch.is_ascii_digit()) && !t.is_empty()) {
+                                anns.push(Ann::Default)
+                            }
+                        }
                         _ => {}
                     }
                 }
@@ -872,6 +950,18 @@ fn check_c09(cases: &[Case], results: &[Option<RunResult>]) -> Vec<Violation> {
                         DNode::El { kids, .. } => kids.iter().for_each(|k| all_text(k, o)),
                         _ => {}
                     }
+                }
+                // only blocks made of text and plain inline elements: images, line breaks and nested
+                // blocks change what a "source line" is
+                fn simple(n: &DNode) -> bool {
+                    match n {
+                        DNode::Text(_) => true,
+                        DNode::El { html: true, name, kids, .. } => ["pre", "em", "strong", "code", "span", "b", "i", "s", "del", "a"].contains(&name.as_str()) && kids.iter().all(simple),
+                        _ => false,
+                    }
+                }
+                if !simple(n) {
+                    return;
                 }
                 let mut t = String::new();
                 all_text(n, &mut t);
